@@ -161,7 +161,7 @@ class C12(OptEngineBase):
     PROBES = [
         "early_stop", "stop_at_i1", "hit_max_iter_converged", "hit_max_iter_not_converged", "chi2_increase_seen", "nan_chi2",
         "chi2_exact_zero", "split_ge_3", "clock_backwards", "clock_frozen", "stdout_failed", "clone_after_abort", "clone_checked",
-        "table_parsed", "table_unparsed", "stop_rule_ambiguous", "stdout_none", "str_parsed", "singular_raised_as_error", "called_with_defaults", "interrupted_in_user_code", "nonunit_vertex_quaternion", "user_edit_between_calls",
+        "table_parsed", "table_unparsed", "stop_rule_ambiguous", "stdout_none", "str_parsed", "singular_raised_as_error", "called_with_defaults", "interrupted_in_user_code", "nonunit_vertex_quaternion", "user_edit_between_calls", "graph_pickled_or_deepcopied_between_calls",
     ]
 
     def generate(self, rng, tier, index):
@@ -187,6 +187,9 @@ class C12(OptEngineBase):
         for k in range(n_calls):
             if rng.random() < 0.2:
                 ops.append({"op": "query"})
+            if k > 0 and rng.random() < 0.1:
+                # between two calls the graph goes through pickle or deepcopy (checkpointing, multiprocessing)
+                ops.append({"op": "recreate", "how": rng.choice(["pickle", "deepcopy"])})
             if k > 0 and rng.random() < 0.12:
                 # between two calls the user re-positions a vertex or toggles a fixed flag; the stepper twin follows
                 if rng.random() < 0.5:
@@ -204,6 +207,8 @@ class C12(OptEngineBase):
                 "clock": rng.choice(["steady", "steady", "frozen", "epoch0"]),
                 "clone_check": rng.random() < 0.5,
             })
+            if rng.random() < 0.12:
+                ops[-1]["arg_types"] = rng.choice(["np_float64", "np_float32", "np_int64", "int_tol"])
             if rng.random() < 0.08:
                 # the documented defaults: optimize() == optimize(tol=1e-4, max_iter=20, fix_first_pose=True, verbose=True)
                 ops[-1].update({"use_defaults": True, "tol": 1e-4, "max_iter": 20, "fix_first_pose": True, "verbose": True})
@@ -257,6 +262,18 @@ class C12(OptEngineBase):
                     log.note("query", repr(float(c)))
                     sig_ops.append("query")
                     continue
+                if op["op"] == "recreate":
+                    import pickle
+
+                    if op["how"] == "pickle":
+                        A = pickle.loads(pickle.dumps(A))
+                    else:
+                        A = copy.deepcopy(A)
+                    if not dry:
+                        res.probe("graph_pickled_or_deepcopied_between_calls")
+                    log.note("recreate", op["how"])
+                    sig_ops.append("recreate:" + op["how"])
+                    continue
                 if op["op"] in ("move_vertex", "set_fixed"):
                     for G in ([A] if dry else [A, B]):
                         v = G._vertices[op["k"] % len(G._vertices)]
@@ -274,6 +291,16 @@ class C12(OptEngineBase):
                     continue
                 n_opt += 1
                 kw = {"tol": op["tol"], "max_iter": op["max_iter"], "fix_first_pose": op["fix_first_pose"]}
+                at = op.get("arg_types")
+                if at == "np_float64":
+                    kw["tol"] = np.float64(op["tol"])
+                elif at == "np_float32":
+                    kw["tol"] = np.float32(op["tol"])
+                    op = dict(op, tol=float(np.float32(op["tol"])))  # the reference rule sees the value that was passed
+                elif at == "np_int64":
+                    kw["max_iter"] = np.int64(op["max_iter"])
+                elif at == "int_tol" and op["tol"] == 0.0:
+                    kw["tol"] = 0
                 # fresh clone of the visible state, taken before the call
                 C = None
                 if not dry and (op.get("clone_check") or force_clone):
